@@ -17,7 +17,7 @@ CLAUSES = {
     "C01": ["C01_range", "C01_converge", "C01_fixpoint", "C01_fresh", "C01_period", "C01_set", "C01_young"],
     "C02": ["C02_complete", "C02_opdone", "C02_stays"],
     "C03": ["C03_first", "C03_notearly", "C03_notdead", "C03_prompt", "C03_kids", "C03_stopsig"],
-    "C04": ["C04_list", "C04_count", "C04_owned", "C04_status"],
+    "C04": ["C04_list", "C04_count", "C04_owned", "C04_status", "C04_zombie"],
     "C05": ["C05_noblock", "C05_readnow", "C05_bound"],
     "C09": ["C09_spawn", "C09_reap", "C09_live", "C09_killev", "C09_startstop", "C09_status"],
     "C10": ["C10_wedge", "C10_refuse", "C10_accept", "C10_held"],
